@@ -38,9 +38,10 @@ pub struct Opts {
     pub max_depth: usize,
     pub max_nodes: usize,
     pub max_children: usize,
-    /// enumerate data / attribute / event variations (C04); otherwise all nodes are plain
+    /// vary data / attributes / custom events per node (C04): one profile selector for the whole tree,
+    /// node k gets variant (profile + k) of a 4-entry table; otherwise all nodes are plain
     pub vary_output: bool,
-    /// enumerate id values from {0,1,u64::MAX} instead of unique small ids (C03)
+    /// ids from {0,1,u64::MAX} (rotating per node, or all equal) instead of unique small ids (C03)
     pub vary_ids: bool,
 }
 
@@ -78,12 +79,28 @@ struct Gen<'a> {
     o: &'a Opts,
     next_id: u64,
     nodes: usize,
+    /// one selector for the whole tree; node k gets output variant (profile + k) of the tables below
+    profile: usize,
+    same_ids: bool,
 }
+
+/// (data, attributes, custom events) emitted by a contract node
+const OUT_TABLE: [(Option<&[u8]>, usize, usize); 4] = [(None, 0, 0), (Some(&[1, 2]), 1, 0), (Some(&[]), 0, 1), (None, 1, 1)];
+const ID_TABLE: [u64; 3] = [0, 1, u64::MAX];
 
 impl<'a> Gen<'a> {
     fn node(&mut self, depth: usize, is_root: bool) -> Node {
+        let k_ = self.nodes;
         self.nodes += 1;
-        let id = if self.o.vary_ids { [0u64, 1, u64::MAX][choose(3)] } else { self.next_id };
+        let id = if self.o.vary_ids {
+            if self.same_ids {
+                0
+            } else {
+                ID_TABLE[(self.profile + k_) % 3]
+            }
+        } else {
+            self.next_id
+        };
         self.next_id += 1;
         let can_be_contract = depth < self.o.max_depth;
         let is_contract = is_root || (can_be_contract && choose(2) == 1);
@@ -92,12 +109,13 @@ impl<'a> Gen<'a> {
         let (mut data, mut reply_data, mut attrs, mut events) = (None, None, 0, 0);
         if self.o.vary_output {
             if is_contract {
-                data = DATAS[choose(3)].map(|d| d.to_vec());
-                attrs = choose(2);
-                events = choose(2);
+                let (d, a, e) = OUT_TABLE[(self.profile + k_) % 4];
+                data = d.map(|d| d.to_vec());
+                attrs = a;
+                events = e;
             }
             if !is_root && mode != ReplyOn::Never && !reply_fail {
-                reply_data = DATAS[choose(3)].map(|d| d.to_vec());
+                reply_data = DATAS[(self.profile + k_ + depth) % 3].map(|d| d.to_vec());
             }
         }
         let kind = if is_contract {
@@ -123,7 +141,9 @@ impl<'a> Gen<'a> {
 }
 
 pub fn gen_tree(o: &Opts) -> Node {
-    let mut g = Gen { o, next_id: 1, nodes: 0 };
+    let profile = if o.vary_output { choose(4) } else if o.vary_ids { choose(3) } else { 0 };
+    let same_ids = o.vary_ids && choose(2) == 1;
+    let mut g = Gen { o, next_id: 1, nodes: 0, profile, same_ids };
     g.node(0, true)
 }
 
@@ -205,12 +225,62 @@ pub struct RefState {
 }
 
 #[derive(Clone, Debug, PartialEq)]
+pub struct ReplyExp {
+    pub id: u64,
+    pub payload: Vec<u8>,
+    /// Some((events, data, type_url)) when the sub-message succeeded
+    pub result: Option<(Vec<String>, Option<Vec<u8>>, String)>,
+}
+
+#[derive(Clone, Debug, PartialEq)]
 pub struct Call {
     pub entry: &'static str,
     pub contract: usize,
     pub uid: usize,
     /// for replies: did the sub-message succeed
     pub sub_ok: Option<bool>,
+    /// for replies: what the Reply must carry (C03)
+    pub reply: Option<ReplyExp>,
+}
+
+impl Call {
+    /// the part C02 is about: who was invoked, in which order, on which outcome
+    pub fn core(&self) -> (&'static str, usize, usize, Option<bool>) {
+        (self.entry, self.contract, self.uid, self.sub_ok)
+    }
+}
+
+pub fn varint(mut n: usize) -> Vec<u8> {
+    let mut out = vec![];
+    loop {
+        let b = (n & 0x7f) as u8;
+        n >>= 7;
+        if n == 0 {
+            out.push(b);
+            return out;
+        }
+        out.push(b | 0x80);
+    }
+}
+/// protobuf length-delimited field (proto3: an empty value is not emitted)
+pub fn pb_field(tag: u8, d: &[u8]) -> Vec<u8> {
+    if d.is_empty() {
+        return vec![];
+    }
+    let mut out = vec![(tag << 3) | 2];
+    out.extend(varint(d.len()));
+    out.extend_from_slice(d);
+    out
+}
+/// the standard execute-response encoding (MsgExecuteContractResponse{data})
+pub fn encode_exec(d: &[u8]) -> Vec<u8> {
+    pb_field(1, d)
+}
+/// the standard instantiate-response encoding (MsgInstantiateContractResponse{address, data})
+pub fn encode_inst(addr: &str, d: &[u8]) -> Vec<u8> {
+    let mut out = pb_field(1, addr.as_bytes());
+    out.extend(pb_field(2, d));
+    out
 }
 
 /// what a node contributes upward when it succeeds
@@ -247,7 +317,7 @@ impl<'a> Interp<'a> {
                 Ok((s2, Out { events: vec!["transfer".into()], data: None }))
             }
             Kind::Contract { fail, children } => {
-                self.calls.push(Call { entry: "execute", contract: n.depth, uid, sub_ok: None });
+                self.calls.push(Call { entry: "execute", contract: n.depth, uid, sub_ok: None, reply: None });
                 if *fail {
                     return Err(());
                 }
@@ -280,7 +350,26 @@ impl<'a> Interp<'a> {
                         Err(()) => None,
                     };
                     if due {
-                        self.calls.push(Call { entry: "reply", contract: n.depth, uid: cuid, sub_ok: Some(sub_ok) });
+                        let result = child_out.as_ref().map(|o| {
+                            let (data, url) = match &c.kind {
+                                Kind::Bank { .. } => (None, "/cosmos.bank.v1beta1.MsgSendResponse"),
+                                Kind::Contract { .. } => {
+                                    (o.data.as_ref().map(|d| encode_exec(d)), "/cosmwasm.wasm.v1.MsgExecuteContractResponse")
+                                }
+                            };
+                            (o.events.clone(), data, url.to_string())
+                        });
+                        self.calls.push(Call {
+                            entry: "reply",
+                            contract: n.depth,
+                            uid: cuid,
+                            sub_ok: Some(sub_ok),
+                            reply: Some(ReplyExp {
+                                id: c.id,
+                                payload: cosmwasm_std::to_json_vec(&reply_script(c, cuid)).unwrap(),
+                                result,
+                            }),
+                        });
                         if c.reply_fail {
                             return Err(());
                         }
@@ -338,6 +427,29 @@ pub fn observed_calls(w: &World, trace: &[Ev], uid_of_marker: &dyn Fn(&Ev) -> Op
             contract: w.ks.iter().position(|k_| *k_ == e.contract).unwrap_or(99),
             uid: uid_of_marker(e).unwrap_or(9999),
             sub_ok: e.reply.as_ref().map(|r| matches!(r.result, SubMsgResult::Ok(_))),
+            reply: e.reply.as_ref().map(|r| ReplyExp {
+                id: r.id,
+                payload: r.payload.to_vec(),
+                result: match &r.result {
+                    SubMsgResult::Ok(resp) => {
+                        #[allow(deprecated)]
+                        let data = resp.data.as_ref().map(|d| d.to_vec());
+                        let (url, value) = resp
+                            .msg_responses
+                            .first()
+                            .map(|m| (m.type_url.clone(), m.value.to_vec()))
+                            .unwrap_or_default();
+                        // msg_responses must mirror data (one entry, value = data or empty)
+                        let mirror_ok = resp.msg_responses.len() == 1 && value == data.clone().unwrap_or_default();
+                        Some((
+                            resp.events.iter().map(|ev| event_sig(w, ev)).collect(),
+                            data,
+                            if mirror_ok { url } else { format!("MSG-RESPONSES-MISMATCH:{}", url) },
+                        ))
+                    }
+                    SubMsgResult::Err(_) => None,
+                },
+            }),
         })
         .collect()
 }
